@@ -6,7 +6,7 @@ use serde_json::{json, Value};
 
 /// every token the specification knows (Text.tla)
 pub const ALPHA: &[&str] = &[
-    "a", "b", "c", "A", "B", "C", "x", "y", "0", "1", "9", "U", "E", "T", "K", "Q", "N", "D", "S", "R",
+    "a", "b", "c", "A", "B", "C", "x", "y", "0", "1", "9", "U", "E", "Z", "T", "K", "Q", "N", "D", "S", "R",
 ];
 
 /// tokens of ALPHA matched by the single-character regex-crate pattern `inner`
@@ -105,8 +105,9 @@ pub fn normalize(e: &Value) -> Value {
         "lit" => {
             let ci = e.get("ci").and_then(|v| v.as_bool()).unwrap_or(false);
             let c = e["c"].as_str().unwrap();
-            let lower = c.to_lowercase();
-            let foldable = ci && (["a", "b", "c"].contains(&lower.as_str()));
+            // tokens with a case partner in the alphabet: a/A b/B c/C E/Z (Text.tla Fold)
+            let lower = match c { "A" => "a", "B" => "b", "C" => "c", "Z" => "E", x => x }.to_string();
+            let foldable = ci && (["a", "b", "c", "E"].contains(&lower.as_str()));
             if foldable {
                 json!({"k":"lit","c":lower,"ci":true})
             } else {
@@ -117,7 +118,7 @@ pub fn normalize(e: &Value) -> Value {
             let ci = e.get("ci").and_then(|v| v.as_bool()).unwrap_or(false);
             let neg = e["neg"].as_bool().unwrap();
             let set: Vec<&str> = e["set"].as_array().unwrap().iter().map(|t| t.as_str().unwrap()).collect();
-            let fold = |t: &str| -> String { if ["A", "B", "C"].contains(&t) { t.to_lowercase() } else { t.to_string() } };
+            let fold = |t: &str| -> String { match t { "A" => "a", "B" => "b", "C" => "c", "Z" => "E", x => x }.to_string() };
             let mut out = Vec::new();
             for t in ALPHA {
                 let inn = if ci { set.iter().any(|s| fold(s) == fold(t)) } else { set.contains(t) };
